@@ -276,6 +276,9 @@ pub fn check_pos(ctx: &mut Ctx, mp: &MPos, b: &Board) {
 
 /// A game played through randomly alternating safe entry points on one board and one chain.
 pub fn history(ctx: &mut Ctx, start: &MPos, plies: usize) {
+    if ctx.miri_full() {
+        return;
+    }
     let case = format!("hist:{}", mfen::to_xfen(start));
     let Ok(b0) = crate::conv::to_board(start) else { return };
     ctx.begin_case(&case);
